@@ -15,4 +15,31 @@ def writeOutcome (st : State) (si : String) (n : Nat) (u : Upload) : UpSt × UpR
     ({ st with up := eraseK (si, n) st.up, imm := st.imm ++ [((si, n), ⟨d, [u.lease]⟩)] }, ⟨201, .required []⟩)
   | (.opened c, .progress _ q) => ({ st with up := setK (si, n) { u with cells := c } st.up }, ⟨200, .required q⟩)
 
+theorem write_handler_is_upStep_aux (st : State) (sec : SecretsDict) (si : String) (n : Nat) (u : Upload) (off : Nat) (data : Bytes)
+    (hu : lookupK (si, n) st.up = some u) (hs : u.secret = getS sec .upload) (hne : data ≠ []) :
+    hWrite st sec si n (clientContentRange off data) data = writeOutcome st si n u (upStep (.opened u.cells) (off, data)) := by
+  have hlen : data.length ≠ 0 := by
+    intro h; exact hne (List.length_eq_zero_iff.mp h)
+  have hg : getWriteBucket Upload.secret st.up si n (getS sec .upload) = .found u := by
+    unfold lookupK at hu
+    unfold getWriteBucket
+    cases hf : st.up.find? (fun e => e.1 = (si, n)) with
+    | none => simp [hf] at hu
+    | some e =>
+      simp [hf] at hu
+      simp [hu, hs]
+  unfold hWrite clientContentRange
+  simp only [hlen, if_false, ne_eq, not_true_eq_false, hg]
+  have hw : off + data.length - off = data.length := by omega
+  simp only [hw, List.take_length, hlen, if_false, hne]
+  unfold upStep
+  cases hb : bucketWrite u.cells off data with
+  | conflict => simp [hb, writeOutcome]
+  | tooLarge => simp [hb, writeOutcome]
+  | ok c =>
+    simp only [Nat.lt_irrefl, if_false]
+    by_cases hf : finished c = true
+    · simp [hb, hf, writeOutcome]
+    · simp [hb, hf, writeOutcome]
+
 end Tahoe.Http
